@@ -416,12 +416,21 @@ func (a *allowerContext) update(provider AuthEventProvider) {
 		if p, err := NewPowerLevelContentFromAuthEvents(provider, creator); err == nil {
 			a.powerLevelsEvent = e
 			a.powerLevels = p
+		} else {
+			// undecodable power levels: judge as a new checker would, not
+			// against the power levels of the event checked before
+			a.powerLevelsEvent = nil
+			a.powerLevels = PowerLevelContent{}
 		}
 	}
 	if e, _ := provider.JoinRules(); a.joinRuleEvent == nil || a.joinRuleEvent != e {
 		if j, err := NewJoinRuleContentFromAuthEvents(provider); err == nil {
 			a.joinRuleEvent, _ = provider.JoinRules()
 			a.joinRule = j
+		} else {
+			// likewise for undecodable join rules
+			a.joinRuleEvent = nil
+			a.joinRule = JoinRuleContent{}
 		}
 	}
 }
